@@ -140,7 +140,7 @@ func TestPropSCIONClient(t *testing.T) {
 		var stale []byte
 		ncalls := rapid.IntRange(1, 8).Draw(t, "calls")
 		for k := 0; k < ncalls; k++ {
-			faults := rapid.SliceOfN(rapid.SampledFrom([]string{"none", "none", "none", "none", "none", "drop-request", "drop-response", "drop-response", "duplicate", "stale-first", "delayed", "force-basic"}), 3, 3).Draw(t, "faults")
+			faults := rapid.SliceOfN(rapid.SampledFrom([]string{"none", "none", "none", "none", "none", "drop-request", "drop-response", "drop-response", "duplicate", "stale-first", "delayed", "force-basic", "snap-rx", "snap-tx", "snap-both"}), 3, 3).Draw(t, "faults")
 			var plans []netlab.Plan
 			for _, fl := range faults {
 				p := netlab.Plan{Theta: nextTheta(t)}
@@ -163,6 +163,9 @@ func TestPropSCIONClient(t *testing.T) {
 					p.Delay = time.Duration(rapid.Int64Range(1, 15).Draw(t, "delay-ms")) * time.Millisecond
 				case "force-basic":
 					p.ForceBasic = true
+				case "snap-rx", "snap-tx", "snap-both":
+					p.Snap = fl[5:]
+					p.SnapFrac = rapid.OneOf(rapid.SampledFrom([]uint32{0, 0, 0, 1, 0xffffffff, 0x80000000, 0x7fffffff}), rapid.Uint32()).Draw(t, "snap-frac")
 				}
 				plans = append(plans, p)
 			}
@@ -194,7 +197,10 @@ func TestPropSCIONClient(t *testing.T) {
 				if ex.Genuine != nil {
 					stale = ex.Genuine
 				}
-				if i < len(faults) && faults[i] != "none" && faults[i] != "delayed" && faults[i] != "force-basic" {
+				if i < len(faults) && faults[i] != "none" {
+					labels["plan:"+faults[i]]++
+				}
+				if i < len(faults) && realFault(faults[i]) {
 					clean = false
 					faultSeen = true
 				}
@@ -227,7 +233,8 @@ func TestPropSCIONClient(t *testing.T) {
 				}
 				continue
 			}
-			var matched, via *netlab.Exchange
+			var matched *netlab.Exchange
+			var vias []*netlab.Exchange
 			var why []string
 			for _, ex := range exs {
 				if ex.Dropped || !delivered(ex) {
@@ -244,7 +251,8 @@ func TestPropSCIONClient(t *testing.T) {
 				mid := j.R.Add(j.S.Sub(j.R) / 2)
 				lo, hi := mid.Sub(mj.b)+j.Theta-4, mid.Sub(mj.a)+j.Theta+4
 				if off >= lo && off <= hi {
-					matched, via = j, ex
+					matched = j
+					vias = append(vias, ex)
 				} else {
 					why = append(why, fmt.Sprintf("exchange %v (via %v): envelope [%v, %v]", j, ex, lo, hi))
 				}
@@ -268,7 +276,13 @@ func TestPropSCIONClient(t *testing.T) {
 					labels["tight-bound-checked"]++
 				}
 			}
-			if via.Interleaved {
+			via, bad := resolveVia(vias, evaluated)
+			if bad != "" {
+				t.Fatalf("%s (log %v)", bad, log)
+			}
+			if via == nil {
+				labels["reply-kind-ambiguous"]++
+			} else if via.Interleaved {
 				labels["accepted-interleaved"]++
 				if !c.InInterleavedMode() {
 					t.Fatalf("an interleaved reply was accepted but the client does not report interleaved mode")
